@@ -408,8 +408,8 @@ def _observe(case, seed):
         if how == 'genuine:anon-no-mutual-group':
             # real client offering only ECDH_anon with a group the server does not accept:
             # AECDHKeyExchange.makeServerKeyExchange raises TLSInsufficientSecurity
-            # (keyexchange.py "No mutual groups") inside _serverAnonKeyExchange, which only
-            # catches TLSInternalError -> a residue class raised directly in the handshake body
+            # (keyexchange.py "No mutual groups") inside _serverAnonKeyExchange, which now
+            # answers with _sendError(insufficient_security) (1b729e0)
             if under != 'server':
                 raise ValueError('server under test')
             cset = settings(minv=(3, 3), maxv=(3, 3), eccCurves=['secp521r1'], keyShares=[],
@@ -678,8 +678,10 @@ def genuine_cases():
     # directly in the handshake body -> no alert (wrapper_no_alert_for_direct_raise)
     add('handshake', 'direct', raise_action('TLSIllegalParameterException'), 'genuine:tap',
         tap=tap_zero_key_share, version=13)
-    # residue of the wrapper's conversion, with genuine bytes (server under test)
-    add('handshake', 'direct', raise_action('TLSInsufficientSecurity'),
+    # anonymous ECDH without a mutual group (server under test): used to be a residue class
+    # escaping without alert; since 1b729e0 _serverAnonKeyExchange converts it locally with
+    # _sendError(insufficient_security) in the handshake body
+    add('handshake', 'direct', ('senderror', A.insufficient_security, 0),
         'genuine:anon-no-mutual-group', under='server')
     # --- read
     for ver in (12, 13):
